@@ -27,22 +27,23 @@ const (
 
 // Prog is the loaded, type-checked program in SSA form plus the indexes rules use.
 type Prog struct {
-	Dir     string
-	Fset    *token.FileSet
-	Pkgs    []*packages.Package
-	SSA     *ssa.Program
-	Col     *ssa.Package // github.com/kelindar/column
-	Commit  *ssa.Package // github.com/kelindar/column/commit
-	All     map[*ssa.Function]bool
-	CHA     *callgraph.Graph
-	vtaG    *callgraph.Graph
-	byName  map[string]*ssa.Function
-	NFiles  int
-	NFuncs  int // functions with bodies in the two library packages (incl. closures, instances)
-	GOARCH  string
-	modFunc map[*ssa.Function]bool
-	uniq    map[*ssa.Function][]ssa.CallInstruction
-	bound   map[*ssa.Function][]*ssa.MakeClosure // method (origin) → the method values created of it
+	Dir        string
+	Fset       *token.FileSet
+	Pkgs       []*packages.Package
+	SSA        *ssa.Program
+	Col        *ssa.Package // github.com/kelindar/column
+	Commit     *ssa.Package // github.com/kelindar/column/commit
+	All        map[*ssa.Function]bool
+	CHA        *callgraph.Graph
+	vtaG       *callgraph.Graph
+	byName     map[string]*ssa.Function
+	NFiles     int
+	NFuncs     int // functions with bodies in the two library packages (incl. closures, instances)
+	GOARCH     string
+	modFunc    map[*ssa.Function]bool
+	uniq       map[*ssa.Function][]ssa.CallInstruction
+	bound      map[*ssa.Function][]*ssa.MakeClosure // method (origin) → the method values created of it
+	publishers map[*ssa.Function]bool               // accessors that hand out a value loaded from an atomic.Value
 }
 
 // Load type-checks and builds SSA for every package of the module in dir.
